@@ -319,9 +319,9 @@ func forEachTamper(b *Built, v visitFn) {
 	tU64(v, "hdr.timestamp", &h.Timestamp)
 	v("hdr.version.sameformat", func() { h.ProtocolVersion = nextVersion[h.ProtocolVersion] })
 	v("hdr.version.otherformat", func() {
-		if h.ProtocolVersion < "0.13.2" {
+		if !vge(h.ProtocolVersion, 0, 13, 2) {
 			h.ProtocolVersion = "0.13.2"
-		} else if h.ProtocolVersion < "0.13.4" {
+		} else if !vge(h.ProtocolVersion, 0, 13, 4) {
 			h.ProtocolVersion = "0.13.4"
 		} else {
 			h.ProtocolVersion = "0.13.3"
@@ -331,9 +331,11 @@ func forEachTamper(b *Built, v visitFn) {
 	tFelt(v, "hdr.l1gas.wei", &h.L1GasPriceETH)
 	tFelt(v, "hdr.l1gas.fri", &h.L1GasPriceSTRK)
 	v("hdr.damode", func() { h.L1DAMode = 1 - h.L1DAMode })
-	tFelt(v, "hdr.l1datagas.wei", &h.L1DataGasPrice.PriceInWei)
-	tFelt(v, "hdr.l1datagas.fri", &h.L1DataGasPrice.PriceInFri)
-	if h.ProtocolVersion >= "0.13.4" { // the 0.13.2 format does not commit to the L2 gas price
+	if h.L1DataGasPrice != nil {
+		tFelt(v, "hdr.l1datagas.wei", &h.L1DataGasPrice.PriceInWei)
+		tFelt(v, "hdr.l1datagas.fri", &h.L1DataGasPrice.PriceInFri)
+	}
+	if vge(h.ProtocolVersion, 0, 13, 4) && h.L2GasPrice != nil { // the 0.13.2 format does not commit to the L2 gas price
 		tFelt(v, "hdr.l2gas.wei", &h.L2GasPrice.PriceInWei)
 		tFelt(v, "hdr.l2gas.fri", &h.L2GasPrice.PriceInFri)
 	}
@@ -396,9 +398,24 @@ func isRehashable(name string) bool {
 // (from, keys, data - not the emitting transaction); version string, gas prices, DA mode, receipts and the state
 // diff are covered only through the state root (tamperings of the diff that change the state fall to the
 // root check). Everything is committed in the >= 0.13.2 formats.
+// vge: numeric comparison of a protocol version string (as juno parses it) with major.minor.patch
+func vge(v string, major, minor, patch uint64) bool {
+	sv, err := core.ParseBlockVersion(v)
+	if err != nil {
+		return false
+	}
+	if sv.Major() != major {
+		return sv.Major() > major
+	}
+	if sv.Minor() != minor {
+		return sv.Minor() > minor
+	}
+	return sv.Patch() >= patch
+}
+
 func committedIn(b *Built, name string) bool {
 	ver := b.Block.ProtocolVersion
-	if ver >= "0.13.2" {
+	if vge(ver, 0, 13, 2) {
 		return true
 	}
 	has := func(p string) bool { return len(name) >= len(p) && name[:len(p)] == p }
@@ -416,7 +433,7 @@ func committedIn(b *Built, name string) bool {
 		var idx int
 		var rest string
 		fmt.Sscanf(name, "tx.%d.%s", &idx, &rest)
-		if len(rest) >= 4 && rest[:4] == "sig." && ver < "0.11.1" {
+		if len(rest) >= 4 && rest[:4] == "sig." && !vge(ver, 0, 11, 1) {
 			_, isInvoke := b.Block.Transactions[idx].(*core.InvokeTransaction)
 			return isInvoke
 		}
